@@ -184,6 +184,25 @@ def check_explicit(case, R=None):
         out.append({'key': 'Shuffle:explicit:%s' % sym, 'what': what, 'case': c})
 
     M = len(clauses)
+    if case.get('keywords'):
+        # the only keywords are 'fixed' and 'shuffle': any other string (or a
+        # value that is neither a string nor a sequence) is an invalid argument
+        for pos in range(3):
+            for badv in ('random', 'none', 'Fixed', 'fixed ', '', 'SHUFFLE', 'identity', None, 1, 1.5, True):
+                a = ['fixed', 'fixed', 'fixed']
+                a[pos] = badv
+                try:
+                    Shuffle(mk(n, clauses), a[0], a[1], a[2])
+                except (ValueError, TypeError):
+                    if R is not None:
+                        R.stats['explicit_invalid_rejected'] += 1
+                    continue
+                except Exception as e:
+                    bad('exception:keyword:%s' % type(e).__name__, repr(e), {'keyword': [pos, repr(badv)]})
+                    continue
+                bad('invalid-accepted:keyword', 'argument %d = %r is neither a keyword nor a sequence '
+                    'and was accepted' % (pos, badv), {'keyword': [pos, repr(badv)]})
+        return out
     only = case.get('only')       # replay: a single argument tuple
     if case.get('large'):
         def perm(k, first):
@@ -481,6 +500,8 @@ def shards(tier, seed):
     for n, cls in ASYM + SYM:
         ex.append({'n': n, 'clauses': cls})
     ex.append({'n': 4, 'clauses': [[1, -4], [2, 3]]})
+    ex.append({'n': 2, 'clauses': [[1, -2], [2]], 'keywords': True})
+    ex.append({'n': 3, 'clauses': [[1, 2, -3]], 'keywords': True})
     ex.append({'n': 4, 'clauses': [[1, -4], [2, 3], [-1, 2, -3, 4], [4]]})
     # sizes beyond CPython's small-integer cache (256) and two-digit indices
     for big in (12, 300):
